@@ -160,6 +160,9 @@ func init() {
 			return nil, true
 		},
 		"Yield": func(fr *frame, a []value) (value, bool) { fr.i.yield(); return nil, true },
+		// RealFmt(on): let calls to fmt.Sprintf run Go's real implementation
+		// instead of the engine's message formatter.
+		"RealFmt": func(fr *frame, a []value) (value, bool) { fr.i.realFmt = a[0].(bool); return nil, true },
 		// Concurrent(f1, f2): the two functions are logged as two activities and
 		// run one after the other (natively they run on two goroutines under the
 		// race detector).
